@@ -26,19 +26,20 @@ ASSUME = ["numerical equality of vectorised and scalar evaluation is numpy broad
 def run(prog, rep):
     rep.explanation = EXPL
     rep.assumptions = ASSUME
-    values(prog, rep)
-    forward(prog, rep)
-    keywords(prog, rep)
+    rep.part(values, prog, rep)
+    rep.part(forward, prog, rep)
+    rep.part(keywords, prog, rep)
     sub = _Relabel(rep, "C05.paramflow", "C08.template")
     for fam in families(prog):
-        c05.paramflow(prog, sub, fam)
-    chain(prog, rep)
+        rep.part(c05.paramflow, prog, sub, fam)
+    rep.part(chain, prog, rep)
     rep.expect_min("C08.values", 4)
     rep.expect_min("C08.forward", 4)
     rep.expect_min("C08.keywords", 28)
     rep.expect_min("C08.template", 17)
     rep.expect_min("C08.chain", 6)
-
+    from .purity import row as _stateless_row
+    rep.part(_stateless_row, prog, rep, "C08", 4)
 
 def values(prog, rep):
     q = f"{CD}._get_param_values"
